@@ -1364,7 +1364,55 @@ def wait_key_private(repo):
 # ------------------------------------------------------------------ extraction
 
 PARAMS = ["checkClone", "mmapCleanup", "setTidRet", "setTidPanic", "dropValH", "dropValT", "recheck"]
-NUMS = ["initWord", "joinExpect", "dropExpect"]
+NUMS = ["initWord", "joinExpect", "dropExpect", "stackMapFlags"]
+
+# x86-64 values of the mmap flags rusl names (MapRequiredFlag / MapAdditionalFlags); the HUGE_<size> encodings are the size's log2 << 26
+MAP_BITS = {"MapShared": 0x1, "MapPrivate": 0x2, "MapSharedValidate": 0x3, "MAP_FIXED": 0x10, "MAP_ANONYMOUS": 0x20, "MAP_FILE": 0,
+            "MAP_GROWSDOWN": 0x100, "MAP_DENYWRITE": 0x800, "MAP_EXECUTABLE": 0x1000, "MAP_LOCKED": 0x2000, "MAP_NORESERVE": 0x4000,
+            "MAP_POPULATE": 0x8000, "MAP_NONBLOCK": 0x10000, "MAP_STACK": 0x20000, "MAP_HUGETLB": 0x40000, "MAP_SYNC": 0x80000,
+            "MAP_FIXED_NOREPLACE": 0x100000, "MAP_UNINITIALIZED": 0x4000000,
+            "MAP_HUGE_16KB": 14 << 26, "MAP_HUGE_64KB": 16 << 26, "MAP_HUGE_512KB": 19 << 26, "MAP_HUGE_1MB": 20 << 26, "MAP_HUGE_2MB": 21 << 26,
+            "MAP_HUGE_8MB": 23 << 26, "MAP_HUGE_16MB": 24 << 26, "MAP_HUGE_32MB": 25 << 26, "MAP_HUGE_256MB": 28 << 26, "MAP_HUGE_512MB": 29 << 26,
+            "MAP_HUGE_1GB": 30 << 26, "MAP_HUGE_2GB": 31 << 26, "MAP_HUGE_16GB": 34 << 26}
+
+
+def stack_map_flags(raw):
+    """the flag word of the one mmap call of spawn.rs (the thread's stack), from the flag names written at the call: the 4th and 5th
+    argument of rusl's mmap(addr, len, prot, required_flag, additional_flags, fd, off).  None when the call is not in that form
+    (flags held in a variable, several mmap calls, an unknown name): the check then takes the flag word from the running code."""
+    calls = [m for m in re.finditer(r"(?<![\w.])mmap\s*\(", raw) if not re.search(r"\buse\b[^;]*$", raw[:m.start()].rsplit("\n", 1)[-1])]
+    if len(calls) != 1:
+        return None
+    i, depth, args, cur = calls[0].end(), 1, [], []
+    while i < len(raw) and depth:
+        ch = raw[i]
+        if ch in "([{":
+            depth += 1
+        elif ch in ")]}":
+            depth -= 1
+            if depth == 0:
+                break
+        if ch == "," and depth == 1:
+            args.append("".join(cur))
+            cur = []
+        else:
+            cur.append(ch)
+        i += 1
+    if "".join(cur).strip():
+        args.append("".join(cur))
+    if len(args) != 7:
+        return None
+    bits = 0
+    for a in (args[3], args[4]):
+        a = re.sub(r"//[^\n]*", "", a)
+        for name in a.split("|"):
+            name = name.strip().split("::")[-1]
+            if name == "empty()":
+                continue
+            if name not in MAP_BITS:
+                return None
+            bits |= MAP_BITS[name]
+    return bits
 
 
 def analyse(repo=None):
@@ -1437,6 +1485,7 @@ def analyse(repo=None):
         "initWord": init_val,
         "joinExpect": wait_val(J),
         "dropExpect": wait_val(D),
+        "stackMapFlags": stack_map_flags(raw),
     }
     return {"F": F, "paths": paths, "sites": sites, "loops": loops, "derived": derived, "notes": notes, "clone_asm": asm_syscalls(raw),
             "unfinished": init_val, "wait_private": wait_key_private(repo)}
@@ -1498,7 +1547,10 @@ def emit(table, resolved=None, path=None):
         lines.append("def %sStatic : Bool := %s" % (k, "true" if src[k] == "static" else "false"))
     for k in NUMS:
         # an operand that can be resolved neither statically nor at run time becomes a value no futex word ever holds: the Lean check then fails
+        # (for stackMapFlags: a flag word with every bit set, which is not a fixed-extent mapping)
         lines.append("def %s : Nat := %d" % (k, 4294967295 if d[k] is None else d[k]))
+    lines.append("/-- `stackMapFlags` is the flag word of the stack mmap: read off the flag names at the call (true) / seen in the running code's mmap (false) -/")
+    lines.append("def stackMapFlagsStatic : Bool := %s" % ("true" if src["stackMapFlags"] == "static" else "false"))
     lines.append("def futexWaitPrivate : Bool := %s" % ("true" if wp or wp is None else "false"))
     lines += ["", "end TinyVerif.Gen.Thread", ""]
     text = "\n".join(lines)
